@@ -91,6 +91,16 @@ CLAIMED = {
         technique="TLA+ spec WireStream (concurrent writers, partial writes, interruption policy) checked by TLC with a must-violate config; bytes written by the six real endpoints recorded by a raw peer, decomposed by an independent content-addressed parser and judged by TLC (Trace_WireStream)",
         text="TLC proves WholeFrames for the fail-the-connection policy and produces the torn stream for the keep-writing policy. On the implementation a raw peer records the byte stream (or WebSocket messages) of the blocking, async and WebSocket clients under 8 (32) concurrent callers with payloads straddling 8 KiB / 64 KiB / 1 MiB boundaries, of the blocking, async and WebSocket servers under pipelined and concurrent responses, and under interrupted writes (write timeout against a stalled reader on the blocking client and both TCP servers; a call abandoned mid-send on the async and WebSocket clients) with 16 (32) MiB frames; an independent parser keyed on body content classifies the bytes into whole frames, a trailing prefix and foreign bytes, and the trace specification accepts only whole frames optionally followed by one final prefix.",
         note="Trusts TLC and the recorder's content-addressed parser. Stall durations and payload sizes are chosen so that loopback buffering cannot absorb the frame."),
+    "C09": dict(
+        category="model_checking", design_ref="DESIGN.md §5 C09",
+        technique="TLA+ spec ValueStream (producer, re-chunking sink, bounded channel incl. rendezvous, lookahead, next handler, cancel) checked by TLC over the parameter grid and every interleaving incl. liveness; scripted producers pulled through raw /_svs exchanges and all pullers on real servers and judged by TLC (Trace_ValueStream)",
+        text="TLC draws payload length, chunk size, channel depth and failure point in Init and checks, over every producer/consumer interleaving, that the delivered bytes are a gapless prefix, that at most one reply carries the end marker and only after everything was delivered, that nothing follows the end or a release, that a failure never yields an end marker, that an empty payload is a single empty final chunk, that the reply sequence is the same function of the parameters in every interleaving, and that the exchange terminates. On the implementation, every producer kind is pulled at every boundary residue of the payload length for chunk sizes 1 B..64 KiB (1 MiB), depths 0..4 (8) and both compressions, with failures at chunk boundaries +-1, slow-consumer and slow-producer regimes and mid-stream release, by raw exchanges and by the blocking, async and WebSocket pullers; each pull is judged by the trace specification.",
+        note="Trusts TLC, zstd for decompression of the concatenation, and the scripted producers. Chunk-size predictions are as-built layer (drift only)."),
+    "C10": dict(
+        category="fault_enumeration", design_ref="DESIGN.md §5 C10",
+        technique="TLA+ spec PullCommit checked by TLC; in-process fault scenarios and strace-injected process kills at every write/fsync/rename/close of the temp and destination paths on the real pullers, filesystem outcomes judged by TLC (Trace_PullCommit, PullCommit!Allowed)",
+        text="TLC checks the commit protocol (destination never partial; published only after end marker, sync and verification; an in-process failure leaves the destination as it was and no temp file; a kill leaves the destination as it was unless the rename happened). On the implementation the fault space is enumerated: producer failure after every chunk boundary +-1 byte, the connection cut after the k-th response for every k, rejecting verifier, trailer longer than the stream, blocking and async pullers, both compressions, destination absent or pre-existing; and a child process performing the pull is killed by strace fault injection at each write, fsync, rename and close touching the temp or destination path. The resulting filesystem and call result are validated by the trace specification; value-decoding pulls over a cut connection must error.",
+        note="fault_enumeration: the fault placements are enumerated, not every interleaving of the OS. Assumes POSIX rename atomicity; power-loss durability is not exercised. Needs ptrace (strace) in the sandbox."),
 }
 
 NOT_YET = {}
